@@ -713,7 +713,12 @@ func allocImmutable(al *ssa.Alloc) bool {
 		for _, r := range *refs {
 			switch x := r.(type) {
 			case *ssa.Store:
-				if x.Val == v || x.Addr != v {
+				// the only assignment allowed is the spill of a parameter into the variable at
+				// the very start of the declaring function (before any call could observe it)
+				if x.Val == v || x.Addr != v || depth != 0 {
+					return false
+				}
+				if _, isParam := x.Val.(*ssa.Parameter); !isParam || x.Block() == nil || x.Block().Index != 0 {
 					return false
 				}
 				stores++
